@@ -11,6 +11,7 @@ From Coquelicot Require Import Complex.
 From OV Require Import Base.Panic Base.Arith gen.Params Model.Roots Proofs.RootsRound.
 Import ListNotations.
 Local Open Scope R_scope.
+Import RRN.
 
 (* ---------------------------------------------------------------- the principal square root *)
 Definition Csqrt (z : C) : C :=
